@@ -428,6 +428,9 @@ def run(run, src):
         raise RuntimeError("c04 model driver failed: " + p.stderr[-500:])
     mres = parse_model_output(p.stdout, cases)
     real = run_real(src, cases, min(16, core.NPROC))
+    # is the bare-default defect (undefined behaviour, arbitrary symptoms) present in this tree?  Probe = DIRECTED[5].
+    probe = real[5]
+    bare_bug = ("crash" in probe) or probe.get("exc") is not None or probe.get("out") != "dflt"
     dis_parse, dis_eval, dis_impl = [], [], []
     dist = {"templates": {}, "depth": {}, "kinds": {}, "outcome": {"ok": 0, "exc": 0, "crash": 0, "eval-none": 0}, "page_chars": {}}
     n_parse = 0
@@ -448,7 +451,7 @@ def run(run, src):
                   "ast": {"uni": c["uni"], "page": c["page"]}}
         if "harness_error" in r:
             r = {"id": r["id"], "page_node": None, "tpl_nodes": {}, "out": None, "exc": "(outside expandTemplates) " + r["harness_error"], "nodump": True}
-        bare = has_bare_default(c["page"]) or any(has_bare_default(b) for _n, b in c["uni"])
+        bare = bare_bug and (has_bare_default(c["page"]) or any(has_bare_default(b) for _n, b in c["uni"]))
         BARE_FP = "switch-bare-default:no_key_seen[-1]-under-wraparound=False"
         if "crash" in r:
             dist["outcome"]["crash"] += 1
